@@ -334,8 +334,9 @@ def rule_ly_track(ctx):
     f = repo.mod(LY).func("from_Track")
     rec = {LY + ".from_Bar": recorder("from_Bar", "BAR")}
     # includes relative keys (C / a, f# / A): same signature, different key -- the mode must still be written
-    keys = ["C", "C", "a", "f#", "f#", "A", "C"]
-    meters = [(4, 4), (3, 4), (3, 4), (3, 4), (4, 4), (4, 4), (4, 4)]
+    # ... and bars where key and meter change together (both are written), and where neither does
+    keys = ["C", "C", "a", "f#", "f#", "A", "C", "Eb", "Eb", "g", "C"]
+    meters = [(4, 4), (3, 4), (3, 4), (3, 4), (4, 4), (4, 4), (4, 4), (6, 8), (6, 8), (2, 2), (4, 4)]
 
     def mk():
         trci = repo.mod(TR).cls("Track")
@@ -357,7 +358,7 @@ def rule_ly_track(ctx):
             lk, lm = k, m
         if flags != want:
             ok, why = False, "(showkey, showtime) per bar is %s, expected %s (shown exactly when the key / meter differs from the previous bar)" % (flags, want)
-    ctx.check(ok, R, "from_Track", f.where(), "lilypond.from_Track(<7 bars>)", why)
+    ctx.check(ok, R, "from_Track", f.where(), "lilypond.from_Track(<11 bars>)", why)
     fc = repo.mod(LY).func("from_Composition")
     rec = {LY + ".from_Track": recorder("from_Track", "TRACK")}
     comp = AObj(repo.mod(COMP).cls("Composition"), {"tracks": [Token("t0"), Token("t1")], "title": "My Title", "author": "Some Author", "subtitle": "Op. 1"}, name="comp")
